@@ -150,54 +150,64 @@ fn c07_available_width_0_2() {
 }
 
 // ------------------------------------------------------------------------------------------------
-// Side-by-side numbering protocol (C05): one row of `paint_minus_and_plus_lines_side_by_side`
-// from an arbitrary counter state, with rendering cut away (superimpose / padding stubbed to
-// nothing) and a monitor in place of `format_and_paint_line_numbers` that records which panel was
-// asked to display which number.
+// Side-by-side numbering protocol (C05): ONE row of `paint_minus_and_plus_lines_side_by_side`
+// from an arbitrary counter state - the inductive step for side-by-side blocks. Executed for
+// real: the row loop, `paint_left_panel_minus_line` / `paint_right_panel_plus_line`,
+// `paint_minus_or_plus_panel_line` (choice of the state handed to the number gutter),
+// `Painter::paint_line` (increment only for the right panel), `linenumbers_and_styles`, and the
+// compensation at the tail of the loop. Cut away by stubs: rendering (`superimpose_style_sections`,
+// `pad_panel_line_to_width`) and `format_and_paint_line_numbers`, which is replaced by a monitor
+// recording which panel was asked to display which number.
+//
+// The monitor writes its log into scalar fields of the harness-owned partial `Config` that the
+// kernel never reads (a `static mut` written from a stub body makes Kani 0.68 report spurious
+// deallocation failures for vectors returned by *other* stubs; reproduced in isolation).
 mod sbs_rows {
     use super::super::*;
     use crate::wrapping::WrapConfig;
     use std::mem::MaybeUninit;
-    use std::ptr::addr_of_mut;
+    use std::ptr::{addr_of, addr_of_mut};
 
-    pub static mut LOG_SIDE: [u8; 8] = [0; 8];
-    pub static mut LOG_NUM: [Option<usize>; 8] = [None; 8];
-    pub static mut NLOG: usize = 0;
-
-    pub fn stub_format_and_paint<'a>(
+    // log encoding per call: kind = 1 left/Some, 2 left/None, 3 right/Some, 4 right/None, 5 no panel
+    fn stub_format_and_paint<'a>(
         _d: &'a LineNumbersData,
         panel: Option<PanelSide>,
         _styles: MinusPlus<Style>,
         nums: MinusPlus<Option<usize>>,
-        _c: &'a Config,
+        c: &'a Config,
     ) -> Vec<ansi_term::ANSIGenericString<'a, str>> {
+        let (kind, num) = match panel {
+            Some(Left) => match nums[Minus] {
+                Some(n) => (1usize, n),
+                None => (2, 0),
+            },
+            Some(Right) => match nums[Plus] {
+                Some(n) => (3, n),
+                None => (4, 0),
+            },
+            None => (5, 0),
+        };
         unsafe {
-            if NLOG < 8 {
-                match panel {
-                    Some(Left) => {
-                        LOG_SIDE[NLOG] = 1;
-                        LOG_NUM[NLOG] = nums[Minus];
-                    }
-                    Some(Right) => {
-                        LOG_SIDE[NLOG] = 2;
-                        LOG_NUM[NLOG] = nums[Plus];
-                    }
-                    None => {
-                        LOG_SIDE[NLOG] = 3;
-                    }
-                }
-                NLOG += 1;
+            let p = c as *const Config as *mut Config;
+            let n = addr_of!((*p).max_line_length).read();
+            if n == 0 {
+                addr_of_mut!((*p).available_terminal_width).write(kind);
+                addr_of_mut!((*p).diff_stat_align_width).write(num);
+            } else if n == 1 {
+                addr_of_mut!((*p).line_buffer_size).write(kind);
+                addr_of_mut!((*p).max_syntax_length).write(num);
             }
+            addr_of_mut!((*p).max_line_length).write(n.wrapping_add(1));
         }
         Vec::new()
     }
-    pub fn stub_superimpose(_a: &[(SyntectStyle, &str)], _b: &[(Style, &str)], _t: bool, _n: SyntectStyle) -> Vec<(Style, String)> {
+    fn stub_superimpose(_a: &[(SyntectStyle, &str)], _b: &[(Style, &str)], _t: bool, _n: SyntectStyle) -> Vec<(Style, String)> {
         Vec::new()
     }
     #[allow(clippy::too_many_arguments)]
-    pub fn stub_pad(_l: &mut String, _e: bool, _i: Option<usize>, _d: &[LineSections<'_, Style>], _h: Option<&[bool]>, _s: &State, _p: PanelSide, _b: BgShouldFill, _c: &Config) {}
+    fn stub_pad(_l: &mut String, _e: bool, _i: Option<usize>, _d: &[LineSections<'_, Style>], _h: Option<&[bool]>, _s: &State, _p: PanelSide, _b: BgShouldFill, _c: &Config) {}
 
-    pub fn cfg(c: &mut MaybeUninit<Config>) -> &Config {
+    fn cfg(c: &mut MaybeUninit<Config>) -> &Config {
         let p = c.as_mut_ptr();
         let plain = Style::new();
         unsafe {
@@ -207,7 +217,7 @@ mod sbs_rows {
                 right_symbol: String::new(),
                 right_prefix_symbol: String::new(),
                 use_wrap_right_permille: 0,
-                max_lines: 1,
+                max_lines: 1, // no wrapping inside the harness: wrapped rows are fed in as states
                 inline_hint_syntect_style: SyntectStyle::default(),
             });
             addr_of_mut!((*p).keep_plus_minus_markers).write(false);
@@ -219,42 +229,105 @@ mod sbs_rows {
             addr_of_mut!((*p).null_syntect_style).write(SyntectStyle::default());
             addr_of_mut!((*p).minus_style).write(plain);
             addr_of_mut!((*p).plus_style).write(plain);
+            // monitor log
+            addr_of_mut!((*p).max_line_length).write(0);
+            addr_of_mut!((*p).available_terminal_width).write(0);
+            addr_of_mut!((*p).diff_stat_align_width).write(0);
+            addr_of_mut!((*p).line_buffer_size).write(0);
+            addr_of_mut!((*p).max_syntax_length).write(0);
             &*p
         }
     }
 
-    #[kani::proof]
-    #[kani::unwind(4)]
-    #[kani::stub(crate::features::line_numbers::format_and_paint_line_numbers, stub_format_and_paint)]
-    #[kani::stub(crate::paint::superimpose_style_sections, stub_superimpose)]
-    #[kani::stub(pad_panel_line_to_width, stub_pad)]
-    fn c05_sbs_row_paired() {
+    // LEFT / RIGHT: 0 = absent, 1 = first row of a line, 2 = continuation row of a wrapped line
+    fn row<const LEFT: u8, const RIGHT: u8>() {
         let mut cfg_mem = MaybeUninit::<Config>::uninit();
         let config = cfg(&mut cfg_mem);
-        let minus: Vec<(String, State)> = vec![(String::new(), State::HunkMinus(DiffType::Unified, None))];
-        let plus: Vec<(String, State)> = vec![(String::new(), State::HunkPlus(DiffType::Unified, None))];
-        let syn = LeftRight::new(vec![Vec::new()], vec![Vec::new()]);
-        let dif = LeftRight::new(vec![Vec::new()], vec![Vec::new()]);
-        let hom = LeftRight::new(vec![true], vec![true]);
-        let alignment = vec![(Some(0), Some(0))];
+        let mut minus: Vec<(String, State)> = Vec::with_capacity(1);
+        let mut plus: Vec<(String, State)> = Vec::with_capacity(1);
+        let (mut syn_l, mut syn_r) = (Vec::with_capacity(1), Vec::with_capacity(1));
+        let (mut dif_l, mut dif_r) = (Vec::with_capacity(1), Vec::with_capacity(1));
+        let (mut hom_l, mut hom_r) = (Vec::with_capacity(1), Vec::with_capacity(1));
+        if LEFT > 0 {
+            minus.push((String::new(), if LEFT == 1 { State::HunkMinus(DiffType::Unified, None) } else { State::HunkMinusWrapped }));
+            syn_l.push(Vec::new());
+            dif_l.push(Vec::new());
+            hom_l.push(RIGHT > 0);
+        }
+        if RIGHT > 0 {
+            plus.push((String::new(), if RIGHT == 1 { State::HunkPlus(DiffType::Unified, None) } else { State::HunkPlusWrapped }));
+            syn_r.push(Vec::new());
+            dif_r.push(Vec::new());
+            hom_r.push(LEFT > 0);
+        }
+        let alignment = vec![(if LEFT > 0 { Some(0) } else { None }, if RIGHT > 0 { Some(0) } else { None })];
         let (l, r): (usize, usize) = (kani::any(), kani::any());
         kani::assume(l < usize::MAX - 4 && r < usize::MAX - 4);
         let mut data = Some(LineNumbersData::default());
         data.as_mut().unwrap().line_number = MinusPlus::new(l, r);
         let mut out = String::new();
-        paint_minus_and_plus_lines_side_by_side(LeftRight::new(&minus, &plus), syn, dif, hom, alignment, &mut data, &mut out, config);
+        paint_minus_and_plus_lines_side_by_side(
+            LeftRight::new(&minus, &plus),
+            LeftRight::new(syn_l, syn_r),
+            LeftRight::new(dif_l, dif_r),
+            LeftRight::new(hom_l, hom_r),
+            alignment,
+            &mut data,
+            &mut out,
+            config,
+        );
         let d = data.as_ref().unwrap();
-        assert!(d.line_number[Left] == l + 1, "paired row advances the old-file counter by one");
-        assert!(d.line_number[Right] == r + 1, "paired row advances the new-file counter by one");
-        unsafe {
-            assert!(NLOG == 2, "two number fields per row");
-            assert!(LOG_SIDE[0] == 1 && LOG_NUM[0] == Some(l), "left panel shows the old-file number");
-            assert!(LOG_SIDE[1] == 2 && LOG_NUM[1] == Some(r), "right panel shows the new-file number");
+        let l_after = if LEFT == 1 { l + 1 } else { l };
+        let r_after = if RIGHT == 1 { r + 1 } else { r };
+        assert!(d.line_number[Left] == l_after, "old-file counter advances exactly on the first row of a removed line");
+        assert!(d.line_number[Right] == r_after, "new-file counter advances exactly on the first row of an added line");
+        let (calls, k0, n0, k1, n1) = unsafe {
+            let p = config as *const Config;
+            (
+                addr_of!((*p).max_line_length).read(),
+                addr_of!((*p).available_terminal_width).read(),
+                addr_of!((*p).diff_stat_align_width).read(),
+                addr_of!((*p).line_buffer_size).read(),
+                addr_of!((*p).max_syntax_length).read(),
+            )
+        };
+        assert!(calls == 2, "one number field per panel per row");
+        if LEFT == 1 {
+            assert!(k0 == 1 && n0 == l, "left panel shows the old-file number of a removed line's first row");
+        } else {
+            assert!(k0 == 2, "left panel shows no number on continuation rows and beside unpaired added lines");
         }
+        if RIGHT == 1 {
+            assert!(k1 == 3 && n1 == r, "right panel shows the new-file number of an added line's first row");
+        } else {
+            assert!(k1 == 4, "right panel shows no number on continuation rows and beside unpaired removed lines");
+        }
+        kani::cover!(l == 41 && r == 7, "a particular counter state");
         kani::cover!(true, "end of harness reached");
         std::mem::forget(data);
         std::mem::forget(out);
         std::mem::forget(minus);
         std::mem::forget(plus);
     }
+
+    macro_rules! row_harness {
+        ($name:ident, $l:expr, $r:expr) => {
+            #[kani::proof]
+            #[kani::unwind(4)]
+            #[kani::stub(crate::features::line_numbers::format_and_paint_line_numbers, stub_format_and_paint)]
+            #[kani::stub(crate::paint::superimpose_style_sections, stub_superimpose)]
+            #[kani::stub(pad_panel_line_to_width, stub_pad)]
+            fn $name() {
+                row::<$l, $r>();
+            }
+        };
+    }
+    row_harness!(c05_sbs_row_first_first, 1, 1);
+    row_harness!(c05_sbs_row_first_absent, 1, 0);
+    row_harness!(c05_sbs_row_absent_first, 0, 1);
+    row_harness!(c05_sbs_row_cont_cont, 2, 2);
+    row_harness!(c05_sbs_row_cont_first, 2, 1);
+    row_harness!(c05_sbs_row_first_cont, 1, 2);
+    row_harness!(c05_sbs_row_cont_absent, 2, 0);
+    row_harness!(c05_sbs_row_absent_cont, 0, 2);
 }
